@@ -506,11 +506,19 @@ func c07HookCase(c *Ctx) *Result {
 	victim := r.Intn(len(users))
 	removed := users[victim]
 	alt := append(append([]regUser(nil), users[:victim]...), users[victim+1:]...)
-	mode := pick(r, "remove", "rotate")
+	mode := pick(r, "remove", "rotate", "hints-become-mandatory")
 	if mode == "rotate" {
 		alt = append([]regUser(nil), users...)
 		alt[victim].Plain = ""
 		alt[victim].Hashed = refcodec.HashedPassword("rotated", removed.Name)
+	}
+	hintName := removed.Name
+	if mode == "hints-become-mandatory" {
+		// the reload keeps every user (one more is added) and makes the user
+		// hint mandatory; the segment of a registered user carries no hint or a
+		// hint naming nobody: acceptable before the reload, not after it
+		alt = append(append([]regUser(nil), users...), regUser{Name: "newcomer", Plain: "newcomer-pw", Hashed: refcodec.HashedPassword("newcomer-pw", "newcomer")})
+		hintName = pick(r, "", "nobody-by-that-name")
 	}
 	params := map[string]interface{}{"users": len(users), "mode": mode}
 	c.Out.Start("C07", fmt.Sprintf("C07-hook/%d/%d", c.Seed, c.Idx), c.Seed, params)
@@ -524,11 +532,14 @@ func c07HookCase(c *Ctx) *Result {
 			// a complete reload happens while this discovery is between its
 			// attempt on the old generation and the still-current check
 			reg.SetUsers(usersToMap(alt))
+			if mode == "hints-become-mandatory" {
+				reg.SetHintMandatory(true)
+			}
 		}
 	})
 	defer serveruser.VerifSetAfterAttempt(nil)
 	src := serveruser.SourceFromAddr(&net.TCPAddr{IP: net.IPv4(10, 1, 1, 1), Port: 5})
-	pkt := craftMeta(removed.Hashed, removed.Name, time.Now().Unix(), nil)
+	pkt := craftMeta(removed.Hashed, hintName, time.Now().Unix(), nil)
 	block, _, _, err := reg.Discover(pkt, src, true)
 	res.Obs["hooked_discoveries"] = 1
 	res.Obs["hook_fired"] = float64(fired)
@@ -537,6 +548,10 @@ func c07HookCase(c *Ctx) *Result {
 	if err == nil {
 		res.Verdict, res.Sig = Violated, "C07|reload|old-credential-authenticated-after-reload-completed"
 		res.Detail = fmt.Sprintf("a reload (%s) of user %q completed while a connection-level discovery was in progress; the discovery still authenticated the old credential as %q", mode, removed.Name, block.BlockContext().UserName)
+		if mode == "hints-become-mandatory" {
+			res.Sig = "C07|reload|segment-without-valid-hint-accepted-after-hints-became-mandatory"
+			res.Detail = fmt.Sprintf("a reload that made the user hint mandatory completed while a discovery was in progress; the segment (hint %q) was still accepted as %q", hintName, block.BlockContext().UserName)
+		}
 		return res
 	}
 	// and the new credential must work right away
